@@ -413,7 +413,32 @@ def gen_edges(rng):
     return c
 
 
+def gen_zero(rng, k):
+    """thresholds that are exactly zero: max_distance = 0 keeps the pairs at identical positions (stations, identical grids),
+    max_interval = 0 keeps nothing (the time difference must be SMALLER than max_interval)"""
+    a = clampk(rng.uniform(-60, 60) / KEY, rng.uniform(-170, 170) / KEY)
+    off = lambda d: clampk(a[0] + d, a[1] + 2 * d)                                   # noqa  (d in 1e-8 degrees)
+    ppos = [a, a, a, off(40000), off(90000), off(-70000)]
+    spos = [a, a, off(40000), off(40000), off(15000), off(-70001)]
+    prim = [[1000 + i, 3600 * SEC + i * SEC, ppos[i][0], ppos[i][1]] for i in range(6)]
+    seco = [[5000 + i, 3600 * SEC + (i + (0, 2, 0, 1, 0, 3)[i]) * SEC, spos[i][0], spos[i][1]] for i in range(6)]
+    P, S = to_dataset(rng, prim, "flat"), to_dataset(rng, seco, "flat")
+    b = {"start": None, "end": None, "wstyle": "none"}
+    # zero only as a number: to_kilometers rejects the strings '0 km' / '0 m' on purpose (a string without a readable
+    # number also parses to 0), which is a documented validation and not part of this property
+    zero_d = [[0, None], [0.0, None]][k % 2]
+    zero_i = [[0, None], [0, "float"], [0, "timedelta"], [0, "s"]][(k // 2) % 4]
+    calls = [{"P": P, "S": S, "dist": zero_d, "ivl": gen_ivl(rng, 10), **b, **gen_tuning(rng)},
+             {"P": P, "S": S, "dist": gen_dist(rng, 5), "ivl": zero_i, **b, **gen_tuning(rng)},
+             {"P": S, "S": P, "dist": zero_d, "ivl": gen_ivl(rng, 2), **b, **gen_tuning(rng)},
+             {"P": P, "S": S, "dist": zero_d, "ivl": zero_i, **b, **gen_tuning(rng)},
+             {"P": P, "S": S, "dist": gen_dist(rng, 5), "ivl": gen_ivl(rng, 10), **b, **gen_tuning(rng)}]
+    return calls
+
+
 def gen_case(rng, k, big=False, quick=False):
+    if not big and k % 16 == 5:                           # directed, whatever the seed
+        return {"id": k, "kind": "zero", "calls": gen_zero(rng, k // 16)}
     if big:
         # both size orderings (the binned path swaps the datasets when the secondary is the larger one)
         call = gen_call(rng, big=True, larger=("primary", "secondary")[k % 2], quick=quick)
